@@ -39,6 +39,7 @@ package dct
 import (
 	"bufio"
 	"io"
+	"sync"
 
 	"seehuhn.de/go/membudget"
 	"seehuhn.de/go/pdf/internal/filter/dct/jpeg"
@@ -61,9 +62,10 @@ import (
 // pipe.
 func Decode(r io.Reader, colorTransform *int, budget *membudget.Budget) (io.ReadCloser, error) {
 	pr, pw := io.Pipe()
+	src := &gatedReader{r: r}
 	go func() {
 		bw := bufio.NewWriter(pw)
-		if err := jpeg.DecodeStream(r, colorTransform, bw, budget); err != nil {
+		if err := jpeg.DecodeStream(src, colorTransform, bw, budget); err != nil {
 			pw.CloseWithError(err)
 			return
 		}
@@ -73,5 +75,42 @@ func Decode(r io.Reader, colorTransform *int, budget *membudget.Budget) (io.Read
 		}
 		pw.Close()
 	}()
-	return pr, nil
+	return &reader{PipeReader: pr, src: src}, nil
+}
+
+// reader is the consumer's end of the pipe.  Close also cuts the producer
+// goroutine off from the data source: once Close has returned, the source is
+// not read again, so the caller may close or reuse it (the producer itself
+// ends at its next read or write).
+type reader struct {
+	*io.PipeReader
+	src *gatedReader
+}
+
+func (r *reader) Close() error {
+	r.src.shut()
+	return r.PipeReader.Close()
+}
+
+// gatedReader passes reads on to r until it is shut.
+type gatedReader struct {
+	mu     sync.Mutex
+	r      io.Reader
+	closed bool
+}
+
+func (g *gatedReader) Read(p []byte) (int, error) {
+	g.mu.Lock()
+	defer g.mu.Unlock()
+	if g.closed {
+		return 0, io.ErrClosedPipe
+	}
+	return g.r.Read(p)
+}
+
+// shut waits for a Read in progress and refuses all later ones.
+func (g *gatedReader) shut() {
+	g.mu.Lock()
+	g.closed = true
+	g.mu.Unlock()
 }
